@@ -13,6 +13,7 @@ RULE = ('Random operation sequences (10-200 requests) against the real Simulated
         '>=1 transfer in each direction and >=2 portfolios; distinct = distinct (request kind, side) sequence.'
         ' Widened after seeded changes: base currency in {USD, GBP, EUR}; order ids repeated across portfolios (every delivered fill must belong to an order pending in THAT portfolio); very large positions; tiny (sub-cent) amounts.')
 RULE += ' Portfolio ids are created in a shuffled (non-alphabetical) order in half of the cases.'
+RULE += " 8% of the cases are an account with a single portfolio whose id is 'master' (the key under which the reports give their total)."
 ASSUMPTIONS = [
     'fills are taken as the Transaction delivered to Portfolio.transact_asset (price, signed quantity, commission); '
     'that these equal quote and fee model is C05',
